@@ -16,7 +16,8 @@ LEVEL_TEXT = ("Every one of the 16 operation variants of both APIs is called wit
               "structural clauses, checked with a reference CRC that shares nothing with the repository. Random sampling of an "
               "unbounded argument space: no proof of absence.")
 RULE = ("case = (operation kind, accepted arguments, device id, key, session id, timestamp, login-reply length), one "
-        "connection per case; plus histories of 2..10 operations on one connection per API type. Non-trivial = a frame other than the login frame; distinct by (kind, frame length, signature bytes).")
+        "connection per case; plus histories of 2..10 operations on one connection per API type. Non-trivial = a frame other than the login frame; distinct by (kind, frame length, signature bytes)."
+        ' Also: host zones other than UTC, names that are not NFC-stable or start with U+FEFF, and 32-byte names crafted so that their last four bytes equal the signature of the frame so far.')
 ASSUMPTIONS = [
     "frame boundaries = lengths of the client's StreamWriter.write calls (harness-side tap), content from the socket",
     "login replies of 12..1024 bytes carrying the session id at offset 8 (the statement's precondition)",
